@@ -1,7 +1,7 @@
 HOOK_COMMITS = ["c7ee5a1"]
 ENGINES = [
  {"name": "vf", "path": "vf/", "serves_properties": [],
-  "kind_free_text": "jaxpr interpreter (JX) and NumPy path explorer (PX) over symbolic scalar domains, decided by z3 (nlsat / LRA / LIA / QF_FP)"},
+  "kind_free_text": "jaxpr interpreter (JX) and NumPy path explorer (PX) over symbolic scalar domains, decided by z3 (nlsat / LRA / LIA / QF_FP) and, for the UF + FP queries of C09, the cvc5 binary"},
 ]
 NOTES = ("Solver-based checking of the real code: see DESIGN.md. Exit codes of ./check: 0 held, 1 violation "
          "(VIOLATION line, replayed), 2 inconclusive, 3 engine error.")
@@ -45,13 +45,15 @@ CHECKS["C04"] = dict(level="model_checking", design_ref="DESIGN.md 5/C04",
          "w*clip(|imp| cos theta) with the NaN/window rule for every double.",
     note=_WF_NOTE + " Series truncated at s^3 (orders beyond dt^2 outside the claim); part B havocks everything upstream of |imp| and cos(theta).")
 CHECKS["C09"] = dict(level="model_checking", design_ref="DESIGN.md 5/C09",
-    technique="inductive step in z3 QF_FP (IEEE-754 binary64) over the traced jaxpr with havocked upstream values",
-    text="One step of each propagator from an arbitrary pre-state satisfying the invariant (weights finite >= 0) with every upstream "
-         "quantity an arbitrary double under its IEEE contract: post-weights finite, >= 0, not NaN; factor in {0} u [1e-3,100]; dead stays "
-         "dead; shift finite while alive. One inductive step covers histories of any length. Candidates are reported only when a hostile "
-         "concrete input reproduces them on the real function.",
-    note="Trusted: z3 QF_FP; uninterpreted products with lemma instances, each lemma discharged against exact fpMul/fpDiv; JAX tracing. "
-         "Weights in (0,1e-300) outside the claim.")
+    technique="inductive step in IEEE-754 binary64 over the traced jaxpr with havocked upstream values; QF_FP / QF_UFFP queries decided by a z3 + cvc5 portfolio",
+    text="One step of each propagator (phaseless restricted / unrestricted, propagator_cpmc, _cpmc_slow, _cpmc_nn, _cpmc_nn_slow, _cpmc_continuous) "
+         "from an arbitrary pre-state satisfying the invariant, with every upstream quantity an arbitrary double under its IEEE contract: "
+         "post-weights finite, >= 0, <= 100, not NaN; phaseless factor in {0} u [1e-3,100] and equal to the documented rule; dead stays dead; "
+         "shift finite while a walker is alive (and back inside the pre-state bound for CPMC). One inductive step covers histories of any length. "
+         "Candidates are reported only when a hostile concrete state - one that a real history reaches - reproduces them on the real function.",
+    note="Trusted: z3 5.1 and cvc5 1.0.3; products / quotients / sums of two symbolic doubles are uninterpreted with lemma instances, each lemma "
+         "discharged against the exact IEEE operation in the same run; JAX tracing; libm contracts for exp / log / erf. Weights in (0,1e-300), "
+         "|dt*shift| > 590 and |dt*e_estimate| > 500 are outside the claim. The killed-walker counter is not an obligation.")
 CHECKS["C15"] = dict(level="model_checking", design_ref="DESIGN.md 5/C15",
     technique="symbolic execution of the traced jaxpr + z3 polynomial identities (congruence for every real C; invariance under Cayley-orthogonal C)",
     text="rotate_orbs output equals C^T X C elementwise for every real matrix C and every h1/chol at norb 2,3; energies, force biases "
@@ -140,14 +142,20 @@ CHECKS["C08"] = dict(level="model_checking", design_ref="DESIGN.md 5/C08",
          "driver iterations can make a step read a stale overlap. A missing or misplaced refresh leaves a non-zero term and is replayed.",
     note="Trusted: z3, JAX tracing, congruence abstraction (sound for equalities), the observation-only hook. 2 walkers, (2;1,1;1), <= 2x2x2 blocks; propagate_free and CPMC outside.")
 CHECKS["C10"] = dict(level="model_checking", design_ref="DESIGN.md 5/C10",
-    technique="symbolic execution of the traced jaxpr + z3 polynomial identities (fast updates, HS constants); graded series for the one-body half step",
-    text="(1) for uhf_cpmc and ghf_cpmc and EVERY ordered pair of spin-orbitals: calc_overlap_ratio x overlap = overlap of the row-scaled walker "
-         "and update_greens_function = Green's function recomputed from scratch, for all walkers, trials and update constants; "
-         "calc_green_diagonal = diag(calc_full_green); (2) (1/2) sum_sigma B_sigma = exp(-dt U n_up n_dn) on every site occupation from the "
-         "contracts of exp/acosh; (3) the one-body half step exp_h1 against exp(-dt K/2) for any chol and rdm1 - KNOWN FINDING: the "
-         "inherited intermediates contain Cholesky-derived one-body shifts. The per-site sampling structure of propagate() and fast-vs-slow "
-         "equality are not yet covered (see DESIGN).",
-    note=_WF_NOTE + " Real walkers/trials; constraint-active branches outside.")
+    technique="symbolic execution of the traced jaxpr + z3 polynomial identities; field configurations forced by a comparison oracle, inductive cut points "
+              "at scan iterations and after incremental updates; graded series for the one-body half step; probabilities measured by bisection on replay",
+    text="(1) for uhf_cpmc and ghf_cpmc and EVERY ordered pair of spin-orbitals: calc_overlap_ratio x overlap = overlap of the row-scaled walker and "
+         "update_greens_function = Green's function recomputed from scratch, for all walkers, trials and update constants; (2) (1/2) sum_sigma B_sigma = "
+         "exp(-dt U n_up n_dn) from the contracts of exp/acosh; (3) the one-body half step exp_h1 against exp(-dt K/2) - KNOWN FINDING: the inherited "
+         "intermediates contain Cholesky-derived one-body shifts; (4) step structure of propagator_cpmc / _slow: over all 2^n field configurations "
+         "sum_sigma P(sigma) w' |phi'>/ov' = w exp(dt E_shift) 2^-n sum_sigma |A D_sigma A phi>/ov as Fock vectors for symbolic walker, trial, A, HS "
+         "constants, by induction over the segments of the step from arbitrary valid states, with P the probabilities the code itself compares against; "
+         "fast = slow (walkers, weights, overlaps, probabilities) for the on-site and the neighbour-interaction propagators, every incremental Green's "
+         "function update of the neighbour propagator equal to the from-scratch value.",
+    note="Trusted: z3 5.1.0; JAX tracing = execution (A6); det/inv contract stubs (A2); exact reals for float64 (A1), every counterexample replayed on the "
+         "real jitted code over ALL configurations; erf / PRNG numbers uninterpreted (for the neighbour propagators jax.random inside ad_afqmc.propagation is "
+         "replaced by a harness stub during the call). Bounds: one walker, norb <= 3, <= 64 configurations, no constraint active. The 16-term bond sum "
+         "identity of the neighbour propagator is only evaluated on exact rational instances.")
 CHECKS["C12"] = dict(level="model_checking", design_ref="DESIGN.md 5/C12",
     technique="exhaustive tracing of the option matrix (symbolic execution over shapes) + symbolic execution with uninterpreted block calls and z3 term equalities",
     text="(a) every sampler entry point is traced exactly as driver.afqmc calls it (plain, jax.jvp, jax.vjp) for both walker types and "
